@@ -174,3 +174,21 @@ Print Assumptions C13_section_has_no_bare_marks.
 Theorem C13_section_of_parsed : section_of_parsed_stmt.
 Proof. exact section_of_parsed. Qed.
 Print Assumptions C13_section_of_parsed.
+
+From GV Require Import C13.LexSettingsModel C13.LexSettingsSpec C13.LexSettingsProofs.
+
+Theorem C13_lex_settings_in_force : lex_settings_in_force_stmt.
+Proof. exact lex_settings_in_force. Qed.
+Print Assumptions C13_lex_settings_in_force.
+
+Theorem C13_lex_settings_merge_never_conflicts : lex_settings_merge_never_conflicts_stmt.
+Proof. exact lex_settings_merge_never_conflicts. Qed.
+Print Assumptions C13_lex_settings_merge_never_conflicts.
+
+Theorem C13_lex_unknown_keys_reported : lex_unknown_keys_reported_stmt.
+Proof. exact lex_unknown_keys_reported. Qed.
+Print Assumptions C13_lex_unknown_keys_reported.
+
+Theorem C13_lex_header_of_builder : lex_header_of_builder_stmt.
+Proof. exact lex_header_of_builder. Qed.
+Print Assumptions C13_lex_header_of_builder.
